@@ -59,6 +59,11 @@ def family(W: PipeWorld):
     add("inner(grad(u), grad(u))", cm["Inner"](W.grad(u), W.grad(u)))
     add("u[i]*grad(f)[i] (index notation)", um.m_index_sum(um.m_product(idx(u, i), idx(W.grad(f), i)), MI((i,))))
     add("dot(p, grad(f))   (covariant Piola p)", cm["Dot"](p, W.grad(f)))
+    # explicit Jacobian / inverse Jacobian factors whose free index is the very Index object that a sibling sum binds
+    Jg, Kg = W.geometry("Jacobian"), W.geometry("JacobianInverse")
+    inner_s = um.m_index_sum(um.m_product(idx(Jg, j, i), idx(u, i)), MI((i,)))  # free j
+    mid_s = um.m_index_sum(um.m_product(idx(Kg, i, j), inner_s), MI((j,)))  # free i: K J u = u
+    add("(K[i,j]*(J[j,i]*u[i]))*u[i]   (index objects reused across nested sums)", um.m_index_sum(um.m_product(mid_s, idx(u, i)), MI((i,))))
     # Kronecker deltas in the integrand itself (double contraction: the trace of the identity is the dimension)
     I2 = cm["Identity"](2)
     fI = um.m_component_tensor(um.m_product(f, idx(I2, i, j)), MI((i, j)))
